@@ -2,11 +2,13 @@ module verif/harness
 
 go 1.26
 
-require github.com/jcmturner/gokrb5/v8 v8.0.0
+require (
+	github.com/jcmturner/gofork v1.7.6
+	github.com/jcmturner/gokrb5/v8 v8.0.0
+)
 
 require (
 	github.com/jcmturner/aescts/v2 v2.0.0 // indirect
-	github.com/jcmturner/gofork v1.7.6 // indirect
 	golang.org/x/crypto v0.6.0 // indirect
 )
 
